@@ -53,7 +53,7 @@ def _seeded(prog, rep):
     # np.random.default_rng(random_state) of the caller's own random_state, unchanged (the rows of C07.rng and C16.rng)
     from vstat.report import Relabel
     from . import c07, c16
-    sub = Relabel(rep, "C19.seed", lambda r, inst: r in ("C07.rng", "C07.noseed") or (r == "C16.rng" and "conditional_sample" in inst))
+    sub = Relabel(rep, "C19.seed", lambda r, inst: r in ("C07.rng", "C07.noseed") or (r == "C16.rng" and ("conditional_sample" in inst or "TransformedModel.sample" in inst)))
     rep.part(c07.rng, prog, sub)
     rep.part(c07.noseed, prog, sub)
     rep.part(c16.rng, prog, sub)
